@@ -724,8 +724,10 @@ func (e *kindEngine) atDepth(v ssa.Value, b *ssa.BasicBlock, depth int) kset {
 func (e *kindEngine) refine(v ssa.Value, b *ssa.BasicBlock, depth int, test func(cond ssa.Value) (kset, kset, bool)) kset {
 	k := kAny
 	defBlock := (*ssa.BasicBlock)(nil)
-	if ins, ok := v.(ssa.Instruction); ok {
-		defBlock = ins.Block()
+	if v != nil {
+		if ins, ok := v.(ssa.Instruction); ok {
+			defBlock = ins.Block()
+		}
 	}
 	for d := b; d != nil; d = d.Idom() {
 		if defBlock != nil && !defBlock.Dominates(d) {
